@@ -83,6 +83,7 @@ class Contract:
     policy = {}
     cases = None
     doc = ''
+    tier = 'quick'             # 'thorough': verified only in the thorough tier (slow obligations)
 
     def __init__(self):
         raw = None
